@@ -1,4 +1,5 @@
 pub mod bep42;
+pub mod codec;
 pub mod storage;
 pub mod table;
 pub mod tid;
@@ -9,6 +10,7 @@ use crate::Engine;
 pub fn make(name: &str) -> Option<Box<dyn Engine>> {
     match name {
         "bep42" => Some(Box::new(bep42::Bep42::default())),
+        "codec" => Some(Box::new(codec::CodecEngine::default())),
         "storage" => Some(Box::new(storage::StorageEngine::default())),
         "table" => Some(Box::new(table::TableEngine::default())),
         "tid" => Some(Box::new(tid::Tid::default())),
